@@ -407,8 +407,82 @@ type resource struct {
 var safeCalls = map[string]bool{"len": true, "cap": true, "append": true, "new": true, "delete": true, "Now": true, "Sprintf": true, "Println": true,
 	"Error": true, "Errorf": true, "AddInt32": true, "StoreInt32": true, "LoadInt32": true, "CompareAndSwapInt32": true, "Sleep": true, "NewTicker": true, "Stop": true}
 
-// may the evaluation of n panic? (calls other than a few builtins / std helpers, index, slice, dereference, single-value
-// assertion, division, send) -- function literals are values: their bodies are not entered
+// ---- callee closure: may a call to a function of the reader packages panic (outside a recover scope)?
+// Resolution is by name, without types: a plain identifier that names a package-level function of the current package,
+// or pkg.F where pkg is an import of a reader package, is resolved with certainty and judged by the callee's body alone
+// (least fixpoint over the call graph; a callee whose body starts with an effective recover does not propagate). Any
+// other call (a method, an external function, a closure variable) may panic unless its name is on the safe list AND no
+// method of the reader packages with that name can panic.
+type fileCtx struct {
+	dir     string
+	imports map[string]string // identifier -> directory of a reader package
+}
+
+var (
+	curCtx        *fileCtx
+	pkgFuncs      = map[string]map[string]*ast.FuncDecl{} // dir -> package-level function
+	methodsByName = map[string][]*ast.FuncDecl{}
+	panicsDecl    = map[*ast.FuncDecl]bool{}
+	declCtx       = map[*ast.FuncDecl]*fileCtx{}
+	closureStats  struct{ certain, certainSafe, safeListedButReaderPanics int }
+	countStats    bool
+)
+
+func resolveCall(call *ast.CallExpr) ([]*ast.FuncDecl, bool) {
+	if curCtx == nil {
+		return nil, false
+	}
+	switch f := call.Fun.(type) {
+	case *ast.Ident:
+		if d, ok := pkgFuncs[curCtx.dir][f.Name]; ok {
+			return []*ast.FuncDecl{d}, true
+		}
+	case *ast.SelectorExpr:
+		if id, ok := f.X.(*ast.Ident); ok && id.Obj == nil {
+			if dir, ok := curCtx.imports[id.Name]; ok {
+				if d, ok := pkgFuncs[dir][f.Sel.Name]; ok {
+					return []*ast.FuncDecl{d}, true
+				}
+				return nil, false
+			}
+		}
+		return methodsByName[f.Sel.Name], false
+	}
+	return nil, false
+}
+
+func anyPanics(ds []*ast.FuncDecl) bool {
+	for _, d := range ds {
+		if panicsDecl[d] {
+			return true
+		}
+	}
+	return false
+}
+
+// least fixpoint of "a call to d may panic"
+func computeCalleeClosure() {
+	for changed := true; changed; {
+		changed = false
+		for d, ctx := range declCtx {
+			if panicsDecl[d] {
+				continue
+			}
+			if st, _ := recStatus(d.Body); st == "RecDirect" {
+				continue
+			}
+			curCtx = ctx
+			if mayPanic(d.Body) {
+				panicsDecl[d] = true
+				changed = true
+			}
+		}
+	}
+	curCtx = nil
+}
+
+// may the evaluation of n panic? (calls -- see above --, index, slice, dereference, single-value assertion, division,
+// send) -- function literals are values: their bodies are not entered
 func mayPanic(nodes ...ast.Node) bool {
 	found := false
 	for _, n := range nodes {
@@ -421,13 +495,28 @@ func mayPanic(nodes ...ast.Node) bool {
 				return false
 			case *ast.CallExpr:
 				name := calleeName(x.Fun)
-				if name == "make" {
+				decls, certain := resolveCall(x)
+				if certain {
+					if countStats {
+						closureStats.certain++
+					}
+					if anyPanics(decls) {
+						found = true
+					} else if countStats {
+						closureStats.certainSafe++
+					}
+				} else if name == "make" {
 					if len(x.Args) >= 2 {
 						if _, lit := x.Args[1].(*ast.BasicLit); !lit {
 							found = true
 						}
 					}
 				} else if !safeCalls[name] {
+					found = true
+				} else if anyPanics(decls) {
+					if countStats {
+						closureStats.safeListedButReaderPanics++
+					}
 					found = true
 				}
 			case *ast.IndexExpr, *ast.SliceExpr, *ast.StarExpr, *ast.SendStmt:
@@ -831,9 +920,52 @@ func main() {
 			}
 		}
 	}
+	// ---- callee closure tables
+	dirPkgName := map[string]string{}
+	for _, p := range files {
+		dirPkgName[filepath.Dir(p)] = parsed[p].Name.Name
+	}
+	ctxOf := map[string]*fileCtx{}
+	for _, p := range files {
+		ctx := &fileCtx{dir: filepath.Dir(p), imports: map[string]string{}}
+		for _, im := range parsed[p].Imports {
+			path := strings.Trim(im.Path.Value, "\"`")
+			const pre = "github.com/metrico/qryn/reader"
+			if path != pre && !strings.HasPrefix(path, pre+"/") {
+				continue
+			}
+			dir := filepath.Join(root, strings.TrimPrefix(path, pre))
+			name := dirPkgName[dir]
+			if im.Name != nil {
+				name = im.Name.Name
+			}
+			if name != "" && name != "_" && name != "." {
+				ctx.imports[name] = dir
+			}
+		}
+		ctxOf[p] = ctx
+		for _, dc := range parsed[p].Decls {
+			fd, ok := dc.(*ast.FuncDecl)
+			if !ok || fd.Body == nil {
+				continue
+			}
+			declCtx[fd] = ctx
+			if fd.Recv == nil {
+				if pkgFuncs[ctx.dir] == nil {
+					pkgFuncs[ctx.dir] = map[string]*ast.FuncDecl{}
+				}
+				pkgFuncs[ctx.dir][fd.Name.Name] = fd
+			} else {
+				methodsByName[fd.Name.Name] = append(methodsByName[fd.Name.Name], fd)
+			}
+		}
+	}
+	computeCalleeClosure()
+	countStats = true
 	var all []entry
 	var closeFlows, lockFlows []flowEntry
 	for _, p := range files {
+		curCtx = ctxOf[p]
 		rel, _ := filepath.Rel(root, p)
 		for _, dc := range parsed[p].Decls {
 			fd, ok := dc.(*ast.FuncDecl)
@@ -850,6 +982,7 @@ func main() {
 	}
 	for _, p := range files {
 		f := parsed[p]
+		curCtx = ctxOf[p]
 		rel, _ := filepath.Rel(root, p)
 		for _, dc := range f.Decls {
 			fd, ok := dc.(*ast.FuncDecl)
@@ -958,6 +1091,14 @@ func main() {
 	var b strings.Builder
 	b.WriteString("(* GENERATED by translate/gen_goroutines_reader from " + "$VERIF_REPO/reader" + " -- do not edit, never committed *)\n")
 	b.WriteString("From Coq Require Import List String ZArith.\nFrom Qryn Require Import model.ReaderGoroutines model.ReaderFlow.\nImport ListNotations.\nOpen Scope string_scope.\n\n")
+	np := 0
+	for _, v := range panicsDecl {
+		if v {
+			np++
+		}
+	}
+	fmt.Fprintf(&b, "(* callee closure of the may-panic test: functions of the reader packages, of them may panic when called, calls in the flow models\n   resolved with certainty, of them to a function that cannot panic, safe-listed names that a reader method of the same name overrides *)\n")
+	fmt.Fprintf(&b, "Definition reader_closure_stats : list nat := [%d; %d; %d; %d; %d]%%nat.\n\n", len(declCtx), np, closureStats.certain, closureStats.certainSafe, closureStats.safeListedButReaderPanics)
 	b.WriteString("Definition reader_goroutines : list goroutine := [\n")
 	for i, e := range all {
 		sep := ";"
